@@ -47,6 +47,11 @@ class SimulatedExchange(Exchange):
         `Boolean`
             Whether the exchange is open at this timestamp.
         """
+        # Market hours are quoted in UTC: read a timezone-aware
+        # timestamp in UTC rather than in its own zone
+        if dt.tzinfo is not None:
+            dt = dt.astimezone(datetime.timezone.utc)
+
         if dt.weekday() > 4:
             return False
         return self.open_dt <= dt.time() and dt.time() < self.close_dt
